@@ -44,7 +44,10 @@ class LasData:
             points = record.ScaleAwarePointRecord.zeros(
                 header.point_count, header=header
             )
-        if points.point_format != header.point_format:
+        if (
+            points.point_format != header.point_format
+            or points.point_size != header.point_format.size
+        ):
             raise errors.LaspyException("Incompatible Point Formats")
         if isinstance(points, record.PackedPointRecord):
             points = record.ScaleAwarePointRecord(
@@ -95,7 +98,10 @@ class LasData:
 
     @points.setter
     def points(self, new_points: record.PackedPointRecord) -> None:
-        if new_points.point_format != self.point_format:
+        if (
+            new_points.point_format != self.point_format
+            or new_points.point_size != self.point_format.size
+        ):
             raise errors.IncompatibleDataFormat(
                 "Cannot set points with a different point format, convert first"
             )
